@@ -1,6 +1,7 @@
 package main
 
 import (
+	"sort"
 	"fmt"
 	"go/token"
 	"go/types"
@@ -163,10 +164,47 @@ func parseGuard(g string) (guardSpec, error) {
 func guardClauseResults(eng *vc.Engine, fname string) []StructResult {
 	spec := eng.Spec.Funcs[fname]
 	fn := eng.Func(fname)
-	if spec == nil || fn == nil || (len(spec.Guards) == 0 && len(spec.Orders) == 0 && len(spec.Reads) == 0 && len(spec.ControlOnly) == 0 && len(spec.FeedsOnly) == 0) {
+	if spec == nil || fn == nil || (len(spec.Guards) == 0 && len(spec.Orders) == 0 && len(spec.Reads) == 0 && len(spec.ControlOnly) == 0 && len(spec.FeedsOnly) == 0 && !spec.ReturnsFresh && len(spec.NoStoreThrough) == 0) {
 		return nil
 	}
 	var out []StructResult
+	for _, clause := range spec.NoStoreThrough {
+		fs := strings.Fields(strings.ReplaceAll(clause, ",", " "))
+		if len(fs) == 0 {
+			continue
+		}
+		tn := fs[0]
+		except := map[string]bool{}
+		if len(fs) > 2 && fs[1] == "except" {
+			for _, e := range fs[2:] {
+				except[e] = true
+			}
+		}
+		bad, nFuncs := storesThrough(eng, fn, tn, except)
+		name := fmt.Sprintf("%s#no-store-through:%s", fname, tn)
+		detail := ""
+		if len(bad) > 0 {
+			sort.Strings(bad)
+			detail = strings.Join(bad, "; ")
+			if len(detail) > 600 {
+				detail = detail[:600] + " ..."
+			}
+		}
+		out = append(out, StructResult{Name: name, Desc: fmt.Sprintf("no function reachable from %s (%d functions of its package, interface calls resolved by method name) writes memory reached through a *%s", fname, nFuncs, tn), OK: len(bad) == 0, Detail: detail})
+	}
+	if spec.ReturnsFresh {
+		n := 0
+		for _, b := range fn.Blocks {
+			ret, ok := b.Instrs[len(b.Instrs)-1].(*ssa.Return)
+			if !ok || len(ret.Results) == 0 {
+				continue
+			}
+			n++
+			why := notFresh(eng, fn, ret.Results[0], map[ssa.Value]bool{})
+			pos := eng.Prog.Fset.Position(ret.Pos())
+			out = append(out, StructResult{Name: fmt.Sprintf("%s#returns-fresh@%d", fname, n), Desc: fmt.Sprintf("the value returned at %s:%d is allocated by this call (never a pre-existing object)", shortPath(pos.Filename), pos.Line), OK: why == "", Detail: why})
+		}
+	}
 	for _, fc := range spec.FeedsOnly {
 		st := structOfPkg(fn, fc.Type)
 		if st == nil {
@@ -593,4 +631,261 @@ func feedsUnchanged(fn *ssa.Function, tname string, into []string) map[string]st
 		}
 	}
 	return bad
+}
+
+func shortPath(p string) string { return strings.TrimPrefix(p, "/repo/") }
+
+// notFresh explains why v may be an object that existed before the call of fn
+// ("" if it cannot be): allowed are allocations of fn, nil, interface boxing
+// and conversions of allowed values, phis of allowed values, and results of
+// calls to functions (including fn itself) whose contract says returns_fresh.
+func notFresh(eng *vc.Engine, fn *ssa.Function, v ssa.Value, seen map[ssa.Value]bool) string {
+	if seen[v] {
+		return ""
+	}
+	seen[v] = true
+	switch x := v.(type) {
+	case *ssa.Alloc:
+		return ""
+	case *ssa.Const:
+		if x.Value == nil {
+			return ""
+		}
+		return "a constant"
+	case *ssa.MakeInterface:
+		return notFresh(eng, fn, x.X, seen)
+	case *ssa.ChangeInterface:
+		return notFresh(eng, fn, x.X, seen)
+	case *ssa.ChangeType:
+		return notFresh(eng, fn, x.X, seen)
+	case *ssa.Phi:
+		for _, e := range x.Edges {
+			if why := notFresh(eng, fn, e, seen); why != "" {
+				return why
+			}
+		}
+		return ""
+	case *ssa.Extract:
+		if x.Index != 0 {
+			return "a secondary result of a call"
+		}
+		return notFresh(eng, fn, x.Tuple, seen)
+	case *ssa.Call:
+		callee := x.Call.StaticCallee()
+		if callee == nil {
+			return "the result of a dynamic call"
+		}
+		if callee == fn {
+			return ""
+		}
+		if cs := eng.Spec.Funcs[vc.FuncName(callee)]; cs != nil && cs.ReturnsFresh {
+			return ""
+		}
+		return "the result of " + vc.FuncName(callee) + ", which has no returns_fresh contract"
+	case *ssa.UnOp:
+		// an element of a local slice that only ever received fresh values
+		if x.Op == token.MUL {
+			if ia, ok := x.X.(*ssa.IndexAddr); ok {
+				if _, isSlice := ia.X.Type().Underlying().(*types.Slice); isSlice {
+					if why := sliceElemsNotFresh(eng, fn, ia.X, seen); why == "" {
+						return ""
+					} else {
+						return "an element of a slice that may hold " + why
+					}
+				}
+			}
+		}
+		return "a value loaded from memory"
+	case *ssa.Parameter:
+		return "the parameter " + x.Name()
+	}
+	return fmt.Sprintf("a %T", v)
+}
+
+// sliceElemsNotFresh: "" if every element the local slice value s can hold was
+// put there by this function and is fresh.
+func sliceElemsNotFresh(eng *vc.Engine, fn *ssa.Function, s ssa.Value, seen map[ssa.Value]bool) string {
+	if seen[s] {
+		return ""
+	}
+	seen[s] = true
+	switch x := s.(type) {
+	case *ssa.MakeSlice:
+		return ""
+	case *ssa.Const:
+		if x.Value == nil {
+			return ""
+		}
+	case *ssa.Phi:
+		for _, e := range x.Edges {
+			if why := sliceElemsNotFresh(eng, fn, e, seen); why != "" {
+				return why
+			}
+		}
+		return ""
+	case *ssa.Slice:
+		// s[a:b] of a slice, or arr[:] of a variadic argument array
+		if al, ok := x.X.(*ssa.Alloc); ok {
+			refs := al.Referrers()
+			if refs != nil {
+				for _, r := range *refs {
+					ia, isIA := r.(*ssa.IndexAddr)
+					if !isIA {
+						continue
+					}
+					if irefs := ia.Referrers(); irefs != nil {
+						for _, ir := range *irefs {
+							if st, isSt := ir.(*ssa.Store); isSt && st.Addr == ia {
+								if why := notFresh(eng, fn, st.Val, seen); why != "" {
+									return why
+								}
+							}
+						}
+					}
+				}
+			}
+			return ""
+		}
+		return sliceElemsNotFresh(eng, fn, x.X, seen)
+	case *ssa.Call:
+		if b, ok := x.Call.Value.(*ssa.Builtin); ok && b.Name() == "append" && len(x.Call.Args) == 2 {
+			if why := sliceElemsNotFresh(eng, fn, x.Call.Args[0], seen); why != "" {
+				return why
+			}
+			return sliceElemsNotFresh(eng, fn, x.Call.Args[1], seen)
+		}
+		return "elements produced by a call"
+	case *ssa.UnOp:
+		// the slice itself is loaded from a local variable cell: look at what is stored there
+		if x.Op == token.MUL {
+			if al, ok := x.X.(*ssa.Alloc); ok {
+				if refs := al.Referrers(); refs != nil {
+					for _, r := range *refs {
+						if st, isSt := r.(*ssa.Store); isSt && st.Addr == ssa.Value(al) {
+							if why := sliceElemsNotFresh(eng, fn, st.Val, seen); why != "" {
+								return why
+							}
+						}
+					}
+				}
+				return ""
+			}
+		}
+	}
+	return fmt.Sprintf("pre-existing values (%T)", s)
+}
+
+// storesThrough: the stores / map updates, in fn and in every function of its
+// package reachable from it (static calls, closures, and interface calls
+// resolved to every method of that name in the package), whose target address
+// is reached through a value of type *tname (field, element, or a slice/pointer
+// loaded from one of its fields), except through the excepted fields.
+func storesThrough(eng *vc.Engine, fn *ssa.Function, tname string, except map[string]bool) ([]string, int) {
+	isT := func(t types.Type) bool {
+		p, ok := t.Underlying().(*types.Pointer)
+		if !ok {
+			return false
+		}
+		n, ok := p.Elem().(*types.Named)
+		return ok && n.Obj().Name() == tname
+	}
+	// rootsAtT: does address/value v derive from a *T?
+	var rootsAtT func(v ssa.Value, depth int) (bool, string)
+	rootsAtT = func(v ssa.Value, depth int) (bool, string) {
+		if depth > 12 {
+			return false, ""
+		}
+		switch x := v.(type) {
+		case *ssa.FieldAddr:
+			if isT(x.X.Type()) {
+				fname := x.X.Type().Underlying().(*types.Pointer).Elem().Underlying().(*types.Struct).Field(x.Field).Name()
+				if except[fname] {
+					return false, ""
+				}
+				return true, fname
+			}
+			return rootsAtT(x.X, depth+1)
+		case *ssa.IndexAddr:
+			return rootsAtT(x.X, depth+1)
+		case *ssa.UnOp:
+			if x.Op == token.MUL {
+				return rootsAtT(x.X, depth+1)
+			}
+		case *ssa.Slice:
+			return rootsAtT(x.X, depth+1)
+		case *ssa.Field:
+			return rootsAtT(x.X, depth+1)
+		case *ssa.Phi:
+			for _, e := range x.Edges {
+				if ok, f := rootsAtT(e, depth+1); ok {
+					return true, f
+				}
+			}
+		}
+		return false, ""
+	}
+	// methods of the package by name (for interface dispatch)
+	byName := map[string][]*ssa.Function{}
+	if fn.Pkg != nil {
+		for _, m := range fn.Pkg.Members {
+			if t, ok := m.(*ssa.Type); ok {
+				for _, tt := range []types.Type{t.Type(), types.NewPointer(t.Type())} {
+					ms := fn.Prog.MethodSets.MethodSet(tt)
+					for i := 0; i < ms.Len(); i++ {
+						if mf := fn.Prog.MethodValue(ms.At(i)); mf != nil && mf.Pkg == fn.Pkg {
+							byName[mf.Name()] = append(byName[mf.Name()], mf)
+						}
+					}
+				}
+			}
+		}
+	}
+	seen := map[*ssa.Function]bool{}
+	var work []*ssa.Function
+	push := func(f *ssa.Function) {
+		if f != nil && !seen[f] && f.Blocks != nil {
+			inPkg := f.Pkg == fn.Pkg || (f.Parent() != nil)
+			if inPkg {
+				seen[f] = true
+				work = append(work, f)
+			}
+		}
+	}
+	push(fn)
+	var bad []string
+	for len(work) > 0 {
+		f := work[len(work)-1]
+		work = work[:len(work)-1]
+		for _, b := range f.Blocks {
+			for _, ins := range b.Instrs {
+				switch x := ins.(type) {
+				case *ssa.Store:
+					if ok, fld := rootsAtT(x.Addr, 0); ok {
+						pos := eng.Prog.Fset.Position(x.Pos())
+						bad = append(bad, fmt.Sprintf("%s writes through .%s at %s:%d", vc.FuncName(f), fld, shortPath(pos.Filename), pos.Line))
+					}
+				case *ssa.MapUpdate:
+					if ok, fld := rootsAtT(x.Map, 0); ok {
+						pos := eng.Prog.Fset.Position(x.Pos())
+						bad = append(bad, fmt.Sprintf("%s updates the map .%s at %s:%d", vc.FuncName(f), fld, shortPath(pos.Filename), pos.Line))
+					}
+				case *ssa.MakeClosure:
+					if cf, ok := x.Fn.(*ssa.Function); ok {
+						push(cf)
+					}
+				}
+				if c, ok := ins.(ssa.CallInstruction); ok {
+					cc := c.Common()
+					if cc.IsInvoke() {
+						for _, m := range byName[cc.Method.Name()] {
+							push(m)
+						}
+					} else {
+						push(cc.StaticCallee())
+					}
+				}
+			}
+		}
+	}
+	return bad, len(seen)
 }
